@@ -4,16 +4,22 @@
 package c15
 
 import (
+	"encoding/json"
 	"errors"
 	"fmt"
+	"os"
+	"path/filepath"
 	"sort"
 	"strings"
+	"sync"
 	"testing"
+	"time"
 
 	"github.com/avfs/avfs"
 	"github.com/avfs/avfs/idm/memidm"
 	"pgregory.net/rapid"
 
+	"verif/harness/internal/racelog"
 	"verif/harness/internal/sched"
 	"verif/harness/internal/vt"
 )
@@ -38,7 +44,7 @@ func (c Call) String() string {
 
 // Case is a replayable C15 case.
 type Case struct {
-	Kind    string   `json:"kind"` // seq | conc
+	Kind    string   `json:"kind"` // seq | conc | free (free-running under the race detector)
 	Calls   []Call   `json:"calls,omitempty"`
 	Workers [][]Call `json:"workers,omitempty"`
 	Trace   []int    `json:"trace,omitempty"`
@@ -355,9 +361,14 @@ func TestCheck(t *testing.T) {
 			continue
 		}
 		var dev *vt.Deviation
-		if cs.Kind == "conc" {
+		switch cs.Kind {
+		case "conc":
 			dev, _ = runConc(c, cs.Workers, sched.Replay(cs.Trace))
-		} else {
+		case "free":
+			if devs := runFree(c, cs.Workers, 200); len(devs) > 0 {
+				dev = devs[0]
+			}
+		default:
 			dev = runSeq(c, cs.Calls)
 		}
 		if dev != nil {
@@ -421,7 +432,9 @@ func TestCheck(t *testing.T) {
 
 	// concurrent: 2 workers x 1-2 calls, all schedules with <= 3 pre-emptions
 	cm := []Call{{M: "AddGroup", A: "g1"}, {M: "DelGroup", A: "g1"}, {M: "AddUser", A: "u1", B: "g1"}, {M: "AddUser", A: "u1", B: "root"}, {M: "DelUser", A: "u1"},
-		{M: "LookupUser", A: "u1"}, {M: "LookupGroup", A: "g1"}, {M: "LookupUserId", N: 1001}, {M: "LookupGroupId", N: 1001}, {M: "AddUser", A: "u2", B: "g1"}}
+		{M: "LookupUser", A: "u1"}, {M: "LookupGroup", A: "g1"}, {M: "LookupUserId", N: 1001}, {M: "LookupGroupId", N: 1001}, {M: "AddUser", A: "u2", B: "g1"},
+		// g2 exists from the start: a user can be added to it while it is being deleted
+		{M: "AddUser", A: "u1", B: "g2"}, {M: "DelGroup", A: "g2"}}
 	idx = 0
 	execs := 0
 	for _, a := range cm {
@@ -472,6 +485,93 @@ func TestCheck(t *testing.T) {
 		}
 		return nil
 	})
+
+	// free-running on all cores under the race detector: the scheduler above interleaves at
+	// lock acquisitions, so state that is touched under the wrong mutex, or under none, looks
+	// atomic to it; the race detector sees exactly that.
+	if racelog.Path() == "" {
+		c.Inconclusive("not started by bin/check with the race detector: the free-running tier did not run")
+		return
+	}
+	c.Rapid("free-run", c.Pick(150, 4000), func(t *rapid.T) *vt.Failure {
+		var ws [][]Call
+		for w := rapid.IntRange(2, 6).Draw(t, "workers"); w > 0; w-- {
+			var cs []Call
+			for n := rapid.IntRange(2, 10).Draw(t, "n"); n > 0; n-- {
+				cs = append(cs, drawCall(t))
+			}
+			ws = append(ws, cs)
+		}
+		if devs := runFree(c, ws, 8); len(devs) > 0 {
+			return &vt.Failure{Dev: devs[0], Replay: Case{Kind: "free", Workers: ws}}
+		}
+		c.NonTrivial(vt.Hash64("free", fmt.Sprint(ws)))
+		c.Sample("free-run", map[string]any{"workers": len(ws), "first": fmt.Sprint(ws[0])})
+		return nil
+	})
+}
+
+// runFree runs the workers as free goroutines on one fresh MemIdm, runs times, and returns
+// the data races reported meanwhile and any disagreement between lookups by name and by id
+// left behind. The program is journalled first: a runtime fatal error (concurrent map
+// access) kills the process and the driver reports the journal as the replay.
+func runFree(c *vt.Ctx, ws [][]Call, runs int) []*vt.Deviation {
+	if c.OutDir != "" {
+		b, _ := json.Marshal(map[string]any{"property": "C15", "case": Case{Kind: "free", Workers: ws}})
+		_ = os.WriteFile(filepath.Join(c.OutDir, fmt.Sprintf("journal-%d.json", c.Shard)), b, 0o644)
+	}
+	before := racelog.Size()
+	var devs []*vt.Deviation
+	for r := 0; r < runs && len(devs) == 0; r++ {
+		c.Eval(1)
+		idm := memidm.NewWithOptions(&memidm.Options{OSType: avfs.OsLinux})
+		start := make(chan struct{})
+		var wg sync.WaitGroup
+		for _, w := range ws {
+			w := w
+			wg.Add(1)
+			go func() {
+				defer wg.Done()
+				defer func() { _ = recover() }()
+				<-start
+				for _, cl := range w {
+					apply(idm, cl)
+				}
+			}()
+		}
+		close(start)
+		done := make(chan struct{})
+		go func() { wg.Wait(); close(done) }()
+		select {
+		case <-done:
+		case <-time.After(45 * time.Second):
+			c.Inconclusive("free-running identity-manager program did not finish within 45 s; see C07")
+			return devs
+		}
+		// by name and by id must agree on what is left
+		for _, n := range names {
+			if u, err := idm.LookupUser(n); err == nil {
+				if v, err := idm.LookupUserId(u.Uid()); err != nil || v.Name() != n {
+					d := vt.Dev("prop", "C15", "clause", "free-run-agreement", "op", "LookupUser")
+					d.Detail = fmt.Sprintf("after the free-running program %v: user %q has uid %d, LookupUserId(%d) = %v, %v", ws, n, u.Uid(), u.Uid(), v, err)
+					devs = append(devs, d)
+				}
+			}
+			if g, err := idm.LookupGroup(n); err == nil {
+				if h, err := idm.LookupGroupId(g.Gid()); err != nil || h.Name() != n {
+					d := vt.Dev("prop", "C15", "clause", "free-run-agreement", "op", "LookupGroup")
+					d.Detail = fmt.Sprintf("after the free-running program %v: group %q has gid %d, LookupGroupId(%d) = %v, %v", ws, n, g.Gid(), g.Gid(), h, err)
+					devs = append(devs, d)
+				}
+			}
+		}
+	}
+	for _, pair := range racelog.Since(before) {
+		d := vt.Dev("prop", "C15", "clause", "race", "pair", pair)
+		d.Detail = fmt.Sprintf("data race between %s while %d goroutines used one MemIdm: %v", pair, len(ws), ws)
+		devs = append(devs, d)
+	}
+	return devs
 }
 
 // ---- concurrent executions
